@@ -484,6 +484,23 @@ class Interp:
                                 (err or out)[-600:], "exit 0")
             f["imports"] = f.get("imports", 0) + 1
             f["written"].add((arch, sb.current_hash(arch)))
+            # the database check of the (unchanged) model file says what it says on a cold cache
+            k0 = kernel_code(kernels_for(arch)[0])
+            rc2, out2, err2 = cli.run_subprocess(["--arch", arch, "--db-check"], code=k0, home=sb.home)
+            key = ("dbcheck", arch, sb.variant[arch], sb.isavariant[env.isa_of(arch)])
+            if key not in _REF:
+                ref_sb = Sandbox()
+                try:
+                    ref_sb.set_variant(arch, sb.variant[arch])
+                    ref_sb.set_isa_variant(env.isa_of(arch), sb.isavariant[env.isa_of(arch)])
+                    _REF[key] = cli.run_subprocess(["--arch", arch, "--db-check"], code=k0, home=ref_sb.home)[:2]
+                finally:
+                    ref_sb.close()
+            if (rc2, out2) != _REF[key]:
+                raise Violation("dbcheck-differs:import_cold:" + self.describe(arch), "--db-check after a benchmark "
+                                "import on a cold cache differs from --db-check on a cold cache (same model file)",
+                                [rc2, (err2 or out2)[-400:]], [_REF[key][0], _REF[key][1][-200:]])
+            f["checked"].append(len(self.history))
         elif op == "foreign_version":
             # the cache entry for the current content is replaced by one written in another cache format version
             # (older or newer) whose data differ: it has to be ignored, whatever its version number
